@@ -113,6 +113,8 @@ def outputs(det, kind, X, c, is_ref):
 def impl_det(c):
     vals = base_values(c)
     prm = {"scale": c["scale"], "m": c["m"]}
+    if c["kind"] in ("capa", "mvcapa"):
+        prm["saving"] = [None, "gvar", "gcov"][c["seed"] % 3]
     try:
         ref = outputs(mk_det(c["kind"], prm), c["kind"], wrap(vals, c, "frame", "range", "default", "float"), c, True)
     except Exception as ex:
@@ -132,6 +134,8 @@ def describe(c):
 
 
 def oracle_det(c, r):
+    if "not positive definite" in r.get("msg", ""):
+        return None  # documented error of the multivariate cost on a window with a singular sample covariance (integer data)
     if r["outcome"].startswith("ref-error"):
         return None if "min_size" in r.get("msg", "") else f"reference run (float DataFrame, default index) raised {r['outcome']} {r.get('msg')}"
     if r["outcome"] != "ok":
